@@ -2,16 +2,16 @@ package main
 
 import (
 	"go/ast"
-	"strconv"
 	"go/constant"
 	"go/token"
 	"go/types"
+	"strconv"
 	"strings"
 )
 
 func init() {
 	register(&Property{ID: "C17", Run: runC17,
-		Explain: "Gossip bounds as a gate table (operator-exact comparisons against named parameters, edge-cut dominance), the heartbeat schedule as must-pass-through, and promise accounting: B1/B2 IHAVE message and id budgets (return before any effect), B3 per-IHAVE id cap, B4 only unseen ids requested, B5 the ask is truncated to the remaining budget, the budget is charged and the promise is taken from the truncated list, B6 unwanted ids never served, B7 GossipRetransmission cap, B8/B9 IDONTWANT message cap and a running id cap across the whole RPC, B10 stored TTL, B11 per-peer IHAVE truncation to MaxIHaveLength, B12 IDONTWANT only for messages >= threshold, to mesh peers with the feature, never to the sender, B13 gossip ids only from the first HistoryGossip slots, B14 Shift always expires the last slot, shifts, and clears slot 0, B15 HistoryGossip <= HistoryLength validated, B16 the unwanted map is keyed by computeChecksum everywhere; heartbeat calls clearBackoff/clearIHaveCounters/clearIDontWantCounters/applyIwantPenalties/sendGraftPrune/flush/Shift on every path (flush before Shift) and emitGossip for every mesh and fanout topic with the pushed-to peers excluded; messages are cached before recipients are chosen; promises are fulfilled on deliver/validate/reject (except the two signature reasons), voided on throttle, counted broken only when expired, and penalised only by applyIwantPenalties; HandleRPC runs all five control handlers and replies when any part is non-empty. NOT decided: window arithmetic over heartbeats as counts over histories.",
+		Explain: "Gossip bounds as a gate table (operator-exact comparisons against named parameters, edge-cut dominance), the heartbeat schedule as must-pass-through, and promise accounting: B1/B2 IHAVE message and id budgets (return before any effect), B3 per-IHAVE id cap, B4 only unseen ids requested, B5 the ask is truncated to the remaining budget, the budget is charged and the promise is taken from the truncated list, B6 unwanted ids never served, B7 GossipRetransmission cap, B8/B9 IDONTWANT message cap and a running id cap across the whole RPC, B10 stored TTL, B11 per-peer IHAVE truncation to MaxIHaveLength, B12 IDONTWANT only for messages >= threshold, to mesh peers with the feature, never to the sender, B13 gossip ids only from the first HistoryGossip slots, B14 Shift always expires the last slot, shifts, and clears slot 0, B15 HistoryGossip <= HistoryLength validated, B16 the unwanted map is keyed by computeChecksum everywhere; heartbeat calls clearBackoff/clearIHaveCounters/clearIDontWantCounters/applyIwantPenalties/sendGraftPrune/flush/Shift on every path (flush before Shift) and emitGossip for every mesh and fanout topic with the pushed-to peers excluded; messages are cached before recipients are chosen; promises are fulfilled on deliver/validate/reject (except the two signature reasons), voided on throttle, counted broken only when expired, and penalised only by applyIwantPenalties; HandleRPC runs all five control handlers and replies when any part is non-empty. (B17) a dropped IWANT voids the promise recorded for it and every drop reaches the tracers. NOT decided: window arithmetic over heartbeats as counts over histories.",
 		Assume:  []string{"heartbeat runs once per HeartbeatInterval (timer)", "MessageCache is only used from the event loop"},
 		Mutants: []Mutant{
 			{Name: "ihave-msg-budget-ge", File: "gossipsub.go", Old: "\tif gs.peerhave[p] > gs.params.MaxIHaveMessages {", New: "\tif gs.peerhave[p] > gs.params.MaxIHaveMessages+1 {", Expect: "B1"},
@@ -19,6 +19,8 @@ func init() {
 			{Name: "ihave-seen-not-skipped", File: "gossipsub.go", Old: "\t\t\tif gs.p.seenMessage(mid) {\n\t\t\t\tcontinue\n\t\t\t}\n\t\t\tiwant[mid] = struct{}{}", New: "\t\t\tif gs.p.seenMessage(mid) && len(iwant) > 0 {\n\t\t\t\tcontinue\n\t\t\t}\n\t\t\tiwant[mid] = struct{}{}", Expect: "B4"},
 			{Name: "ihave-promise-before-truncate", File: "gossipsub.go", Old: "\tiwantlst = iwantlst[:iask]\n\tgs.iasked[p] += iask\n\n\tgs.gossipTracer.AddPromise(p, iwantlst)\n", New: "\tgs.gossipTracer.AddPromise(p, iwantlst)\n\tiwantlst = iwantlst[:iask]\n\tgs.iasked[p] += iask\n", Expect: "B5"},
 			{Name: "ihave-budget-not-charged", File: "gossipsub.go", Old: "\tiwantlst = iwantlst[:iask]\n\tgs.iasked[p] += iask\n", New: "\tiwantlst = iwantlst[:iask]\n\tgs.iasked[p] = iask\n", Expect: "B5"},
+			{Name: "dropped-iwant-keeps-promise", File: "gossip_tracer.go", Old: "\t\t\tif promises, ok := gt.promises[mid]; ok {\n\t\t\t\tdelete(promises, p)\n", New: "\t\t\tif promises, ok := gt.promises[mid]; ok && len(promises) > 1 {\n\t\t\t\tdelete(gt.peerPromises[p], mid)\n", Expect: "B17"},
+			{Name: "drop-not-traced", File: "gossipsub.go", Old: "func (gs *GossipSubRouter) doDropRPC(rpc *RPC, p peer.ID, reason string) {\n", New: "func (gs *GossipSubRouter) doDropRPC(rpc *RPC, p peer.ID, reason string) {\n\tif len(rpc.GetPublish()) == 0 && rpc.GetControl().GetIwant() != nil {\n\t\treturn\n\t}\n", Expect: "B17"},
 			{Name: "iwant-unwanted-served", File: "gossipsub.go", Old: "\t\t\tif _, ok := gs.unwanted[p][computeChecksum(mid)]; ok {\n\t\t\t\tcontinue\n\t\t\t}\n\n\t\t\tmsg, count, ok := gs.mcache.GetForPeer(mid, p)", New: "\t\t\tmsg, count, ok := gs.mcache.GetForPeer(mid, p)", Expect: "B6"},
 			{Name: "iwant-retransmission-ge", File: "gossipsub.go", Old: "\t\t\tif count > gs.params.GossipRetransmission {", New: "\t\t\tif count > gs.params.GossipRetransmission+1 {", Expect: "B7"},
 			{Name: "idontwant-msg-cap-gt", File: "gossipsub.go", Old: "\tif gs.peerdontwant[p] >= gs.params.MaxIDontWantMessages {", New: "\tif gs.peerdontwant[p] > gs.params.MaxIDontWantMessages {", Expect: "B8"},
@@ -1073,6 +1075,7 @@ func runC17(c *RuleCtx) {
 			}
 		}
 	}
+	checkDroppedIWantVoidsPromise(c)
 	c.Min["B1"] = 5
 	c.Min["B2"] = 4
 	c.Min["B3"] = 1
@@ -1312,4 +1315,40 @@ func checkIHaveTruncation(c *RuleCtx, f *Func) {
 		}
 	}
 	c.Check(charged, "B5", f.Name, "budget charged by the ask", f.Decl, "iasked[p] += ask", "the per-heartbeat ask budget is not charged by the number of ids requested")
+}
+
+// B17: a promise is recorded by handleIHave before the IWANT is queued (AddPromise precedes sendRPC), and the
+// router drops the IWANT when the peer's queue is full. "Penalises a peer for a broken IWANT promise only if a
+// message requested from it really did not arrive" needs the drop to void the promise: the promise tracker's
+// DropRPC hook deletes the promises of the dropped RPC's IWANT ids for that peer.
+func checkDroppedIWantVoidsPromise(c *RuleCtx) {
+	p := c.P
+	f := c.MustFn("B17", "(*gossipTracer).DropRPC")
+	if f == nil {
+		return
+	}
+	peerParam := isParam(f, 1)
+	fromIWant := func(v *V) bool {
+		return v != nil && v.Has(func(x *V) bool { return x.IsCall("pb.(*ControlIWant).GetMessageIDs") || x.IsField("pb.ControlIWant.MessageIDs") })
+	}
+	voids := false
+	for _, d := range p.mapDeletes(f) {
+		mv := p.R(f).Val(d.Map)
+		if mv == nil || (mv.Kind != "lookupval" && mv.Kind != "index") || !mv.Args[0].IsField("gossipTracer.promises") {
+			continue
+		}
+		if !peerParam(p.R(f).Val(d.Key)) {
+			continue
+		}
+		if fromIWant(mv.Args[1]) {
+			voids = true
+		}
+	}
+	c.Check(voids, "B17", f.Name, "dropped IWANT voids its promise", f.Decl, "deletes promises[id][peer] for the IWANT ids of the dropped RPC", "the promise tracker ignores dropped RPCs: handleIHave records the promise before the IWANT is queued, the router drops the IWANT when the peer's queue is full (never retried), the promise stays, and after IWantFollowupTime the peer is penalised for a request it never received")
+	// the hook is reached: gossipsub's single drop point reports to the tracer (R11.4) and the tracer fans out (R19.1)
+	if d := c.MustFn("B17", "(*GossipSubRouter).doDropRPC"); d != nil {
+		ok, why := p.MustCallFromEntry(d, "(*pubsubTracer).DropRPC")
+		c.Check(ok, "B17", d.Name, "every drop is reported to the tracers", d.Decl, why, "doDropRPC can return without tracer.DropRPC: "+why)
+	}
+	c.Min["B17"] = 2
 }
